@@ -656,6 +656,7 @@ class StateEngine(object):
 
         state_machine_type = state_machine.get("type")
         if state_machine_type == "STANDARD":
+            self.restore_execution_metadata(execution_arn)  # If lost in a restart
             execution_detail = self.executions[execution_arn]
             state_machine_arn = execution_detail["stateMachineArn"]
         else:
@@ -786,6 +787,38 @@ class StateEngine(object):
             else:
                 del self.branch_metadata[execution_arn]
 
+    def restore_execution_metadata(self, execution_arn):
+        """
+        Re-create the execution metadata and (empty) history of an execution
+        that this instance knows nothing about, which is the case when the
+        StateEngine has failed and been restarted and is handling a
+        redelivered message. Called wherever those are about to be accessed.
+        """
+        if self.executions.get(execution_arn) == None:
+            self.logger.warning(
+                "StateEngine: Execution {} does not "
+                "exist, probably due to StateEngine restart. Some history "
+                "metadata has been lost!".format(execution_arn))
+
+            # Derive missing fields from execution_arn
+            split = execution_arn.rpartition(':')
+            arn = parse_arn(split[0])
+            arn["resource_type"] = "stateMachine"
+            state_machine_arn = create_arn(arn)
+            name = split[2]
+
+            self.executions[execution_arn] = {
+                "executionArn": execution_arn,
+                "input": None,
+                "name": name,
+                "output": None,
+                "startDate": time.time(),
+                "stateMachineArn": state_machine_arn,
+                "status": "RUNNING",
+                "stopDate": None,
+            }
+            self.execution_history[execution_arn] = []
+
     def update_execution_history(
             self, state_machine, execution_arn, update_type, details
         ):
@@ -899,30 +932,7 @@ class StateEngine(object):
         state we should hopefully be able to avoid the following condition upon
         StateEngine restart.
         """
-        if self.executions.get(execution_arn) == None:
-            self.logger.warning(
-                "StateEngine: update_execution_history: Execution {} does not "
-                "exist, probably due to StateEngine restart. Some history "
-                "metadata has been lost!".format(execution_arn))
-
-            # Derive missing fields from execution_arn
-            split = execution_arn.rpartition(':')
-            arn = parse_arn(split[0])
-            arn["resource_type"] = "stateMachine"
-            state_machine_arn = create_arn(arn)
-            name = split[2]
-
-            self.executions[execution_arn] = {
-                "executionArn": execution_arn,
-                "input": None,
-                "name": name,
-                "output": None,
-                "startDate": time.time(),
-                "stateMachineArn": state_machine_arn,
-                "status": "RUNNING",
-                "stopDate": None,
-            }
-            self.execution_history[execution_arn] = []
+        self.restore_execution_metadata(execution_arn)
 
         history = self.execution_history[execution_arn]
         """
@@ -1499,7 +1509,7 @@ class StateEngine(object):
             if error_type == "States.TaskFailed":
                 boiler_plate = ""
             elif state_machine_type == "STANDARD":
-                id = len(self.execution_history[execution_arn])
+                id = len(self.execution_history.get(execution_arn, []))
                 boiler_plate = (
                     "An error occurred while executing the state "
                     "\"{}\" (entered at the event id #{}). "
